@@ -154,16 +154,16 @@ IsStmtAt(root, p) == TKindCat(Kind(NodeAt(root, p))) = "stmt"
 KEvent(s, e) == [T |-> Tr.T, M |-> ResM(s.liveS, <<e.m>>), nested |-> FALSE, Sel |-> {1}, docstr |-> Cfg.docstr]
 EventFits(s, e) == Sync(s) /\ CaseFits(KEvent(s, e), s.liveS)
 
-SubstClauses(s, e) ==
-  LET t == e.post  K == KEvent(s, e) IN
-  { Cl("Event.Chain", e.pre.liveP = s.liveP /\ e.pre.lines = s.lines),
+SubstClauses(s, e) ==     \* s = state after the previous step, e.pre = state observed when the callback fired
+  LET t == e.post  q == e.pre  K == KEvent(q, e) IN
+  { Cl("Event.Chain", q.liveP = s.liveP /\ q.lines = s.lines),
     Cl("Event.MatchedNode", e.matchedOk) }
-  \cup (IF EventFits(s, e) /\ e.matchedOk
-        THEN { Cl("Event.TemplateRel", G!TemplateRel(K, s.liveS, t.liveS)) }
-             \cup (IF e.hasRef THEN {Cl("Event.RefAgree", G!TemplateRel(K, s.liveS, e.expS))} ELSE {})
+  \cup (IF EventFits(q, e) /\ e.matchedOk
+        THEN { Cl("Event.TemplateRel", G!TemplateRel(K, q.liveS, t.liveS)) }
+             \cup (IF e.hasRef THEN {Cl("Event.RefAgree", G!TemplateRel(K, q.liveS, e.expS))} ELSE {})
              \cup (IF e.hasRef /\ e.expValid /\ allValid THEN {Cl("Event.Sync", Sync(t))} ELSE {})
              \cup (IF e.hasRef /\ e.expValid /\ allValid
-                   THEN TextClauses("Event.", s, t, {e.m.p}, IsStmtAt(s.liveS, e.m.p)) ELSE {})
+                   THEN TextClauses("Event.", q, t, {e.m.p}, IsStmtAt(q.liveS, e.m.p)) ELSE {})
         ELSE {})
 
 (* --- the whole call                                                          *)
@@ -202,6 +202,7 @@ YieldArg(K, m) == \E o \in G!TopOccs(K, m) :
 MissingInBoolOp(K, m) == \E o \in G!TopOccs(K, m) : o.k = "BoolOp" /\ o.g # "" /\ G!CapOf(K, m, o.g).t = "missing"
 Detail(K) == (IF \E m \in K.Sel : YieldArg(K, m) THEN "/yield-arg" ELSE "")
              \o (IF \E m \in K.Sel : MissingInBoolOp(K, m) THEN "/missing-in-boolop" ELSE "")
+             \o (IF K.nested /\ Len(K.T) > 1 THEN "/multi-stmt-template" ELSE "")
 
 DoneClauses(s, e) ==
   LET t  == e.post
@@ -245,8 +246,8 @@ Clauses(s, e) ==
     [] OTHER -> {Cl("UnknownEvent", FALSE)}
 
 ClassOf(s, e) ==
-  CASE e.k = "subst" -> "subst/" \o Kind(NodeAt(s.liveS, e.m.p)) \o (IF e.loopcont THEN "/loop" ELSE "")
-                           \o Detail(KEvent(s, e))
+  CASE e.k = "subst" -> "subst/" \o Kind(NodeAt(e.pre.liveS, e.m.p)) \o (IF e.loopcont THEN "/loop" ELSE "")
+                           \o Detail(KEvent(e.pre, e))
     [] e.k = "done"  -> "done/" \o e.outcome \o "/" \o e.exc \o "/" \o Static.mode
                            \o (IF Static.mode # "step" THEN Detail(Static.K) ELSE "")
     [] OTHER -> "?"
@@ -266,7 +267,7 @@ Next == /\ l <= Len(Steps(tid))
               /\ nEv' = nEv + (IF e.k = "subst" THEN 1 ELSE 0)
               /\ nUniq' = nUniq + (IF e.k = "subst" /\ ~e.loopcont THEN 1 ELSE 0)
               /\ allValid' = (allValid /\ (e.k = "subst" => e.hasRef /\ e.expValid))
-              /\ fits' = (fits /\ (e.k = "subst" => EventFits(st, e)))
+              /\ fits' = (fits /\ (e.k = "subst" => EventFits(e.pre, e)))
         /\ l' = l + 1
         /\ UNCHANGED tid
 
